@@ -122,13 +122,15 @@ func (p *Prog) panicSites(reach map[*ssa.Function]bool) []panicSite {
 				case *ssa.UnOp:
 					if in.Op == token.MUL {
 						switch in.X.(type) {
-						case *ssa.Phi, *ssa.Call, *ssa.Const:
-							out = append(out, panicSite{"nilderef", fn, in, "*" + x.Of(in.X, in).String()})
+						case *ssa.Phi, *ssa.Call, *ssa.Const, *ssa.Extract:
+							if _, isPtr := in.X.Type().Underlying().(*types.Pointer); isPtr {
+								out = append(out, panicSite{"nilderef", fn, in, "*" + x.Of(in.X, in).String()})
+							}
 						}
 					}
 				case *ssa.FieldAddr:
 					switch in.X.(type) {
-					case *ssa.Phi, *ssa.Call, *ssa.Const:
+					case *ssa.Phi, *ssa.Call, *ssa.Const, *ssa.Extract:
 						out = append(out, panicSite{"nilderef", fn, in, x.Of(in.X, in).String() + "." + fieldName(in)})
 					}
 				case *ssa.Call:
@@ -447,6 +449,24 @@ func (c *FC) lenOf(v ssa.Value, at ssa.Instruction, plens map[string]int) lenFac
 
 // proveSlice decides whether a slice expression is in bounds.
 func (c *FC) proveSlice(s *ssa.Slice, plens map[string]int) (bool, string) {
+	if s.Max != nil {
+		// x[lo:hi:max] additionally needs hi <= max <= cap(x); only len(x) is known, so max must be
+		// a constant within the proven length (or the high bound itself) and the rest is proven as x[lo:hi]
+		mx, okM := constInt(s.Max)
+		same := s.Max == s.High
+		if hi, okH := constInt(s.High); okH && okM && hi == mx {
+			same = true
+		}
+		if !same {
+			base := c.lenOf(s.X, s, plens)
+			if !okM || mx > base.min {
+				return false, fmt.Sprintf("full slice expression: max bound must be within the proven length (len >= %d)", base.min)
+			}
+			if hi, okH := constInt(s.High); s.High != nil && (!okH || hi > mx) {
+				return false, "full slice expression: high bound not provably <= max"
+			}
+		}
+	}
 	// slicing a local array
 	if ptr, ok := s.X.Type().Underlying().(*types.Pointer); ok {
 		if arr, ok := ptr.Elem().Underlying().(*types.Array); ok {
